@@ -14,7 +14,7 @@ pub fn def() -> PropDef {
         judge,
         run,
         shrink: Shrink::Bytes,
-        render: render_bytes,
+        render: render_seq_or_bytes,
         rule: "every header the real parser accepts in U2-ctl, U2-len (every length, exact and with 7 trailing bytes), U2-addr, U2-sig, U2-byte and the embedded TLV sections; the identities are evaluated on the borrowed header and on its owned copy; non-trivial = accepted; distinct = hash of (control bytes, length, bytes present, first 64 payload bytes)",
         assumptions: &["helper methods the statement does not mention (is_empty, Addresses::len/is_empty, u16::from(AddressFamily)) are evaluated; only a panic there is reported (by C03), a surprising value is an advisory note"],
     }
@@ -71,7 +71,17 @@ fn check(acc: &mut Acc, which: &str, input: &[u8], h: &v2::Header) {
     }
 }
 
-pub fn judge(input: &[u8], acc: &mut Acc) {
+pub fn judge(case: &[u8], acc: &mut Acc) {
+    match decode_seq(case) {
+        Some(parts) => {
+            history_differential(&parts, acc, &parse_entries());
+            judge_history_case(&parts, acc, warm_all, judge_plain)
+        }
+        None => judge_plain(case, acc),
+    }
+}
+
+pub fn judge_plain(input: &[u8], acc: &mut Acc) {
     let r = v2_parse(input);
     acc.eval(1);
     let h = match &r {
@@ -84,7 +94,7 @@ pub fn judge(input: &[u8], acc: &mut Acc) {
     acc.class("accepted", v2_name(&r));
     acc.nontrivial_key(v2_key(input));
     acc.validated(1);
-    let big = !(input.len() <= 2048 || u2::near_boundary(input.len().saturating_sub(16)));
+    let big = !(input.len() <= 2048 || u2::near_boundary(input.len().saturating_sub(16)) || OWNED_EVERYWHERE.load(std::sync::atomic::Ordering::Relaxed));
     let res = guard(|| {
         check(acc, "borrowed header", input, h);
         if !big {
@@ -97,11 +107,16 @@ pub fn judge(input: &[u8], acc: &mut Acc) {
     }
 }
 
+static OWNED_EVERYWHERE: std::sync::atomic::AtomicBool = std::sync::atomic::AtomicBool::new(false);
+
 pub fn run(run: &Run) {
+    OWNED_EVERYWHERE.store(run.tier == Tier::Thorough, std::sync::atomic::Ordering::Relaxed);
     run.explore(&u2::CtlUniverse);
     run.explore(&u2::LenUniverse { presents: u2::Presents::AcceptedStride(1), name: "U2-len/accepted" });
     run.explore(&u2::sig_universe());
     run.explore(&u2::addr_universe());
     run.explore(&u2::byte_universe(run.tier.pick(3, 5)));
     run.explore(&super::c11::EmbeddedTlv { n: run.tier.pick(6, 8) });
+    run.explore(&super::c11::EmbeddedText { n: run.tier.pick(6, 8) });
+    explore_all(run, &seq_universes(run.tier, false, true));
 }
